@@ -386,6 +386,7 @@ bool PubSubIqBase::isPubSubIq(const QDomElement &element, bool (*isItemValid)(co
         if (!QXmppPubSubSubscription::isSubscription(queryElement)) {
             return false;
         }
+        break;
     case Delete:
     case Purge:
     case Configure:
